@@ -59,6 +59,11 @@ def workloads(rng, tier):
     for k, (kind, logs, hs) in enumerate([("symref", False, "sha1"), ("value", False, "sha1"), ("symref", False, "s256"), ("delete", True, "sha1")]):
         ws.append({"id": "tiny%d" % k, "n": 400, "per": 1, "namelen": 0, "kind": kind, "fresh": True, "logs": logs and kind != "delete", "split": k % 2 == 0, "hash": hs,
                    "blocksize": 0, "unaligned": False, "restart": 0, "every": 1, "tiny": True})
+    # every ref points at the same object, small blocks: the object's index record outgrows a block, the writer must fall back to a
+    # record without position list - in the compacted tables only (a transaction's own table is too small to have an object index)
+    for k, (bs, hs_) in enumerate([(96, "sha1"), (128, "s256")]):
+        ws.append({"id": "sameobj%d" % k, "n": 200 if tier == "quick" else 600, "per": 1, "namelen": 0, "kind": "value", "fresh": True, "logs": False, "split": k == 0,
+                   "hash": hs_, "blocksize": bs, "unaligned": False, "restart": 0, "every": 1, "sameobj": True})
     for k in range(6 if tier == "quick" else 40):
         ws.append({"id": "mix%d" % k, "n": 60 if tier == "quick" else 200, "per": 1, "namelen": rng.choice([0, 10]), "kind": "value", "fresh": True,
                    "logs": False, "split": True, "hash": rng.choice(["sha1", "s256"]), "blocksize": rng.choice([0, 1024]), "unaligned": rng.random() < 0.3,
